@@ -19,6 +19,15 @@ CLAIMED = {
             'reference and decode(encode(m)) == m with the real __eq__, for bytes(), bin(), tuple and hex()/from_hex.', '4/C01'),
 }
 
+CLAIMED.update({
+    'C02': ('Every integer sequence of length 0..10 (thorough 0..24) with items symbolic over +-2^33 is decided: from_bytes '
+            'returns iff the input is exactly one well-formed message per an independent reference predicate, the returned '
+            "message's bytes() reproduce the input, and only ValueError (TypeError for non-integers) escapes; from_hex likewise.", '4/C02'),
+    'C03': ('For every (type, attribute, entry point) the target value is symbolic over +-2^40: accepted iff in the documented '
+            'range, a rejection leaves the original object untouched (identity of every stored value), accepted calls change '
+            'only that attribute; ill-typed menu, sysex containers, del/type/unknown names and assignment histories up to k.', '4/C03'),
+})
+
 PENDING = {}     # id -> reason (not claimed)
 
 
